@@ -100,6 +100,7 @@ def run(chk):
     chk.notes["recovery_part_is_a_test"] = True
     for r in res[:2]:
         chk.sample({"cfg": r["cfg"], "negotiated": r["negotiated"], "scenario": r["scenario"], "fault": r["fault"], "delivered": len(r["tunw_s"]) + len(r["tunw_c"])})
+    W.report_client_model(chk, res, "C02")
     if not chk.violations and not proof_ok:
         chk.violation("proof obligation no longer checks: " + chk.proof_detail,
                       ["# theorems of Props/C02.lean: " + ", ".join(vlib.prop_theorems("C02")), "# " + chk.proof_detail.replace("\n", "\n# ")], no_input=True)
